@@ -183,6 +183,16 @@ def gen_c04(seed, count):
                 c.feed(publish(2, pid, b't', bytes([pid & 255])))
                 c.poll()
                 pend.append(pid)
+        if idx % 5 == 2:
+            # QoS 1 deliveries that reuse an identifier, with and without DUP, on the same and on a resumed connection:
+            # an acknowledged identifier is free again, every one of these is a message to deliver and to acknowledge
+            n1 = r.choice(ids)
+            for k in range(r.randint(2, 4)):
+                c.feed(publish(1, n1, b'q1/same', bytes([65 + k]) * r.randint(1, 4), dup=(k > 0 and r.random() < 0.8)))
+                c.poll()
+                if r.random() < 0.3:
+                    c.drop()
+                    c.connect(connack(1, 0, []))
         for _ in range(r.randint(3, 14)):
             x = r.random()
             if x < 0.30:
